@@ -237,8 +237,6 @@ def ob_c(a: int, b: int, pos: int, e: int, s: int) -> bool:
 def _c_body(a, b, pos, e, s):
     A, B = POOL[a], POOL[b]
     excluded = SELECTIONS[s] or ()
-    if e >= 4 and any(isinstance(x, Note) and x.acc == 'n' for x in (A, B)):
-        ctx.known('KF-C13-natural-in-agnostic', True)
     # A sits in row 1 column 0; B goes to one of four other places
     grid = [[Note('4', pitch='f'), Note('4', pitch='a')], [A, Note('4', pitch='b')], [Note('4', pitch='g'), Note('4', pitch='cc')]]
     r, c = ((0, 0), (0, 1), (1, 1), (2, 0))[pos]
